@@ -75,9 +75,6 @@ def monitor(ctx, st):
     if A.error:
         ctx.violate({"kind": "manifest-unreadable"}, A.error)
         return
-    if A.root_or_ancestor_matches:
-        ctx.probe("root_matches_pattern_na")
-        return
     w = st.world
     desc = f"{A.argv} (exit {A.exit})"
     rel = lambda p: os.path.relpath(p, w.root)
